@@ -19,7 +19,7 @@ import (
 func init() {
 	register(&Property{
 		ID:       "C13",
-		Patterns: []string{"./tick/ast", "./pipeline", "./pipeline/tick"},
+		Patterns: []string{"./tick", "./tick/ast", "./pipeline", "./pipeline/tick"},
 		Run:      runC13,
 		Explanation: "Writer/reader table agreement for the serialisations behind the round trips: for all AST node types the typeOf written by MarshalJSON, the typeOf checked by unmarshal and the " +
 			"factory case of JSONNode.getNode agree; the key sets written and read are equal, bind the same struct field with a reader of the setter's kind, and cover every field Equal compares; " +
@@ -41,6 +41,8 @@ func runC13(c *core.Ctx) {
 	c.Rule("C13.strescape", "A1: StringNode.Format writes the literal raw between triple quotes when TripleQuotes is set or the literal ends in a backslash (and has no triple quote inside; F43: such a literal has no single-quoted form), and otherwise single-quoted rune by rune with a backslash in front of a rune exactly when that rune is the quote (the parser's newString removes a backslash exactly in front of a quote)")
 	c.Rule("C13.quoted", "A3: F42: the text of a ReferenceNode reaches formatted output only through the escaping loop of ReferenceNode.Format (a range over the text that tests each rune against the double quote); no Format method, nor a helper it calls, writes or concatenates ReferenceNode.Reference otherwise")
 	c.Rule("C13.mlspan", "A3: F44: in parser.precedence the value passed as newBinary's multi-line flag does not derive from the Position() of an operand node (an operand's position is its operator, so such a span contains the operand's own line breaks and formatting never stabilises)")
+	c.Rule("C13.fmtinput", "A3: tick.Format hands exactly its parameter to ast.Parse (once, never reassigned or rewritten before): nothing edits the raw text, whose string literals the formatter copies verbatim")
+	c.Rule("C13.regexliteral", "A3: RegexNode.Literal — which Format writes verbatim between slashes — is only ever assigned text sliced out of a string parameter (the script source in newRegex); a node from JSON or built in code keeps it empty so that Format escapes the pattern")
 	c.Rule("C13.pipetype", "A7: per pipeline node type, the typeOf literal(s) written by MarshalJSON equal those accepted by UnmarshalJSON")
 	c.Rule("C13.registry", "A7: every typeOf a pipeline node marshals is a key of exactly one construction registry, and a chainFunctions/multiParents factory yields the node type that marshals that key")
 	c.Rule("C13.parent", "A7: every chain node type that can be marshalled is accepted as a parent on read: it implements chainnodeAlias or isChainNode has a case for it")
@@ -56,8 +58,14 @@ func runC13(c *core.Ctx) {
 		c13StrEscape(c, pkg)
 		c13Quoted(c, pkg)
 		c13MultiLineSpan(c, pkg)
+		c13RegexLiteral(c, pkg)
 	} else {
 		c.Undecided("C13.typeof", "anchor:tick/ast", token.NoPos, "package not loaded")
+	}
+	if pkg := c.P.Pkg("tick"); pkg != nil {
+		c13FmtInput(c, pkg)
+	} else {
+		c.Undecided("C13.fmtinput", "anchor:tick", token.NoPos, "package not loaded")
 	}
 	if pkg := c.P.Pkg("pipeline"); pkg != nil {
 		c13Pipeline(c, pkg)
@@ -1739,4 +1747,110 @@ func c13MultiLineSpan(c *core.Ctx, pkg *packages.Package) {
 		return true
 	})
 	c.Floor("C13.mlspan", "newBinary calls in parser.precedence", n, 1)
+}
+
+// c13FmtInput: tick.Format parses the text it was given. Any rewriting of the raw text before parsing (line endings, trimming,
+// case) also rewrites the inside of string literals, which the formatter otherwise copies verbatim: the formatted script then
+// defines a task with other property values.
+func c13FmtInput(c *core.Ctx, pkg *packages.Package) {
+	fn := c.Need("C13.fmtinput", "tick", "", "Format")
+	if fn == nil {
+		return
+	}
+	info := pkg.TypesInfo
+	if fn.Decl.Type.Params == nil || len(fn.Decl.Type.Params.List) == 0 || len(fn.Decl.Type.Params.List[0].Names) == 0 {
+		c.Undecided("C13.fmtinput", "tick.Format", fn.Decl.Pos(), "no named parameter")
+		return
+	}
+	param := info.Defs[fn.Decl.Type.Params.List[0].Names[0]]
+	reassigned, parsed, parsedOther := false, 0, ""
+	ast.Inspect(fn.Decl.Body, func(nd ast.Node) bool {
+		switch x := nd.(type) {
+		case *ast.AssignStmt:
+			for _, l := range x.Lhs {
+				if id, ok := l.(*ast.Ident); ok && info.Uses[id] == param {
+					reassigned = true
+				}
+			}
+		case *ast.CallExpr:
+			if m := core.Callee(info, x); m != nil && m.Name() == "Parse" && m.Pkg() != nil && strings.HasSuffix(m.Pkg().Path(), "tick/ast") && len(x.Args) == 1 {
+				parsed++
+				if id, ok := ast.Unparen(x.Args[0]).(*ast.Ident); !ok || info.Uses[id] != param {
+					parsedOther = types.ExprString(x.Args[0])
+				}
+			}
+		}
+		return true
+	})
+	c.Check(parsed == 1 && !reassigned && parsedOther == "", "C13.fmtinput", "tick.Format", fn.Decl.Pos(), "tick.Format must parse exactly the text it was given (Parse calls: %d, parameter reassigned: %v, parses %q instead): a textual rewrite before parsing (e.g. CRLF → LF) also changes the inside of multi-line string literals, so the formatted script defines a task with other .message()/.details()/.post() values than the original", parsed, reassigned, parsedOther)
+}
+
+// c13RegexLiteral: RegexNode has two forms. A node from the parser carries Literal = the source text between the slashes (still
+// escaped) and Format writes it verbatim; any other node has Literal == "" and Format escapes the pattern. So Literal may only
+// ever receive text sliced out of the script source: a pattern string (Regex.String()) stored there is written unescaped.
+func c13RegexLiteral(c *core.Ctx, pkg *packages.Package) {
+	info := pkg.TypesInfo
+	n := 0
+	for _, f := range core.AllFuncs(pkg) {
+		// string parameters of the function, and locals sliced from them
+		src := map[types.Object]bool{}
+		if f.Decl.Type.Params != nil {
+			for _, fl := range f.Decl.Type.Params.List {
+				for _, nm := range fl.Names {
+					if b, ok := info.Defs[nm].Type().Underlying().(*types.Basic); ok && b.Kind() == types.String {
+						src[info.Defs[nm]] = true
+					}
+				}
+			}
+		}
+		fromSource := func(e ast.Expr) bool {
+			e = ast.Unparen(e)
+			if sl, ok := e.(*ast.SliceExpr); ok {
+				e = ast.Unparen(sl.X)
+			}
+			id, ok := e.(*ast.Ident)
+			return ok && src[info.Uses[id]]
+		}
+		ast.Inspect(f.Decl.Body, func(nd ast.Node) bool {
+			if as, ok := nd.(*ast.AssignStmt); ok && len(as.Lhs) == len(as.Rhs) {
+				for i, l := range as.Lhs {
+					if id, ok := l.(*ast.Ident); ok && fromSource(as.Rhs[i]) {
+						if o := info.Defs[id]; o != nil {
+							src[o] = true
+						}
+					}
+				}
+			}
+			return true
+		})
+		check := func(val ast.Expr, pos token.Pos) {
+			n++
+			cons := f.Name() + "#RegexNode.Literal"
+			c.Check(fromSource(val), "C13.regexliteral", cons, pos, "RegexNode.Literal receives %s, which is not text sliced out of the script source: Format writes Literal verbatim between slashes (it is the already escaped source form) and escapes only when Literal is empty, so a pattern stored here (Regex.String()) is rendered with bare slashes — \"path\" =~ /^\\/api\\// read from JSON is rendered as /^/api//, which does not parse", types.ExprString(val))
+		}
+		ast.Inspect(f.Decl.Body, func(nd ast.Node) bool {
+			switch x := nd.(type) {
+			case *ast.AssignStmt:
+				for i, l := range x.Lhs {
+					if an.FieldSel(info, l, "RegexNode", "Literal") && i < len(x.Rhs) {
+						check(x.Rhs[i], x.Pos())
+					}
+				}
+			case *ast.CompositeLit:
+				if tv, ok := info.Types[x]; ok {
+					if nn := core.NamedOf(tv.Type); nn != nil && nn.Obj().Name() == "RegexNode" {
+						for _, el := range x.Elts {
+							if kv, ok := el.(*ast.KeyValueExpr); ok {
+								if k, ok := kv.Key.(*ast.Ident); ok && k.Name == "Literal" {
+									check(kv.Value, kv.Pos())
+								}
+							}
+						}
+					}
+				}
+			}
+			return true
+		})
+	}
+	c.Floor("C13.regexliteral", "writes of RegexNode.Literal", n, 1)
 }
